@@ -29,9 +29,23 @@ pub enum Base {
     ReadClosed,
     WriteClosed,
     BothHalfClosed,
+    /// a stream request was sent and its future then cancelled (e.g. by a timeout)
+    RequestedCancelled,
+    /// a bind request was sent and its future then cancelled
+    BindRequestedCancelled,
 }
 
-const BASES: [Base; 7] = [Base::Absent, Base::Requested, Base::BindRequested, Base::Established, Base::ReadClosed, Base::WriteClosed, Base::BothHalfClosed];
+const BASES: [Base; 9] = [
+    Base::Absent,
+    Base::Requested,
+    Base::BindRequested,
+    Base::Established,
+    Base::ReadClosed,
+    Base::WriteClosed,
+    Base::BothHalfClosed,
+    Base::RequestedCancelled,
+    Base::BindRequestedCancelled,
+];
 
 #[derive(Clone, Debug, PartialEq, Eq, Hash)]
 pub enum Atk {
@@ -185,18 +199,33 @@ fn exec(base: Base, binds: bool, seq: &[Atk], render: bool) -> RunOutput {
     // ---- base state of the victim
     match base {
         Base::Absent => {}
-        Base::Requested => {
+        Base::Requested | Base::RequestedCancelled => {
             cx.w.spawn_opener(0, VT, vec![VT], 1, EndPlan::Seq(vec![Op::Park]));
             let got = cx.settle();
             if !got.iter().any(|m| matches!(m, RMsg::Frame(RFrame::Connect { id: V, .. }))) {
                 pv(&mut cx.viol, "setup.requested", format!("no Connect({V}) seen: {got:?}"));
             }
+            if base == Base::RequestedCancelled {
+                let name = format!("open{VT}.a");
+                if let Some(i) = cx.w.sim.tasks.iter().position(|t| t.name == name) {
+                    cx.w.sim.cancel_task(i);
+                    cx.w.obs.borrow_mut().end(&name);
+                }
+                cx.settle();
+            }
         }
-        Base::BindRequested => {
+        Base::BindRequested | Base::BindRequestedCancelled => {
             cx.w.spawn_bind_requester(0, 0, 1, vec![b'b'], 80);
             let got = cx.settle();
             if !got.iter().any(|m| matches!(m, RMsg::Frame(RFrame::Bind { id: V, .. }))) {
                 pv(&mut cx.viol, "setup.bindrequested", format!("no Bind({V}) seen: {got:?}"));
+            }
+            if base == Base::BindRequestedCancelled {
+                if let Some(i) = cx.w.sim.tasks.iter().position(|t| t.name == "bindreq0.a") {
+                    cx.w.sim.cancel_task(i);
+                    cx.w.obs.borrow_mut().end("bindreq0.a");
+                }
+                cx.settle();
             }
         }
         Base::Established | Base::ReadClosed | Base::WriteClosed | Base::BothHalfClosed => {
@@ -466,7 +495,7 @@ pub fn run(args: &Args) -> Report {
         required_witnesses: W_RESET_REPLY | W_OVERRUN | W_INVALID_ENDS | W_BYSTANDER_OK | W_COLLISION_REJECTED,
         witness_names: &[("reset_reply_to_unknown_flow", W_RESET_REPLY), ("overrun_reset", W_OVERRUN), ("invalid_frame_ends_connection", W_INVALID_ENDS), ("bystander_completed", W_BYSTANDER_OK), ("connect_collision_rejected", W_COLLISION_REJECTED)],
     };
-    rep.rule = "real endpoint (binds on/off) + raw peer; from each of 7 slot states of a victim flow, EVERY sequence up to length L over the frame alphabet (all opcodes x ids {0, victim, unknown} + frames on the live bystander id + window overrun) plus terminal invalid messages is delivered frame by frame with the endpoint run to quiescence in between; reply rules of PROTOCOL.md checked on the frames that reach the raw peer, bystander stream (data in flight before the attack) must complete intact, a fresh Connect must still be served, no panic, invalid message => task ends with InvalidFrame and pending operations resolve".into();
+    rep.rule = "real endpoint (binds on/off) + raw peer; from each of 9 slot states (incl. requests whose future was cancelled) of a victim flow, EVERY sequence up to length L over the frame alphabet (all opcodes x ids {0, victim, unknown} + frames on the live bystander id + window overrun) plus terminal invalid messages is delivered frame by frame with the endpoint run to quiescence in between; reply rules of PROTOCOL.md checked on the frames that reach the raw peer, bystander stream (data in flight before the attack) must complete intact, a fresh Connect must still be served, no panic, invalid message => task ends with InvalidFrame and pending operations resolve".into();
     rep.assumptions = vec![
         "replies are only asserted where PROTOCOL.md / the statement is explicit (unknown flow, Reset-to-Reset, overrun, Bind disabled, Connect collision); elsewhere only totality, bystander integrity and liveness are demanded".into(),
         "the flow-table hook is used for preconditions (is the flow known?) and for the 'existing flow untouched' clause".into(),
